@@ -150,7 +150,8 @@ func (f *Frame) instr(ins ssa.Instruction) {
 		}
 		e.store(f.heap, l, v.T)
 	case *ssa.Send:
-		f.ghostAt("send", nil, Val{}, false)
+		f.curArgTypes = []types.Type{x.Chan.Type(), x.X.Type()}
+		f.ghostAt("send", []Val{f.get(x.Chan), f.get(x.X)}, Val{}, false)
 	case *ssa.Go:
 		e.note("go statement: the started goroutine is not modelled (sequential contract of its body is verified separately)")
 	case *ssa.Defer:
